@@ -35,11 +35,14 @@ size_t mpt_node_move(MPT_STRUCT(node) **from, MPT_STRUCT(node) *dst)
 		if (!(curr = mpt_node_locate(dst, 1, id, src->ident._len, src->ident._charset))) {
 			curr = src;
 			src = src->next;
+			/* advance list head only if it is the one moved */
+			if (*from == curr) {
+				*from = src;
+			}
 			mpt_node_unlink(curr);
 			mpt_gnode_add(last, 0, curr);
 			last = curr;
 			++move;
-			*from = src;
 			continue;
 		}
 		/* move node children */
